@@ -20,6 +20,7 @@ table and 'nod' prints as many extra tokens as the parser demands.
 """
 from ..ir import load_program, strip_casts, norm_callee, ExternFn
 from ..build import AnalysisBroken
+from ..effects import slot_call
 from ..util import backward_slice, resolve_ptr
 
 
@@ -866,6 +867,100 @@ def rule_token_integrity(chk, prog, Pr, L):
     return n
 
 
+def rule_chunk_cut(chk, prog):
+    """K10-chunkcut: the line reader assembles a line from the chunks its source hands out, and where the chunks are cut is
+    none of the line's business.  What is copied out of one chunk is decided by the position of the line feed alone: the
+    length of the copy depends on no other comparison of a chunk byte with a constant.  (A carriage return dropped 'at
+    the end of what was scanned' is dropped in the middle of a line whenever a chunk happens to end there.)"""
+    g = prog.fn("istream_get_line")
+    if g is None or g.decl:
+        chk.broke("istream_get_line is not part of the program")
+        return 0
+    g.build()
+    gets = [c for c in g.calls() if slot_call(c) == ("struct.sqfs_istream_t", "get_buffered_data")]
+    if not gets:
+        chk.broke("istream_get_line no longer reads its source through get_buffered_data")
+        return 0
+    slot = strip_casts(gets[0].ops[1])
+    chunk_ptrs = [i for i in g.insts() if i.op == "load" and strip_casts(i.ops[0]) is slot]
+    n = 0
+    for c in g.calls():
+        if norm_callee(c.callee) not in ("memcpy", "memmove"):
+            continue
+        if not any(x in chunk_ptrs for x in [strip_casts(c.ops[1])] + list(backward_slice(c.ops[1], phi_control=False))):
+            continue
+        n += 1
+        chk.analysed(g)
+        bad = None
+        for x in backward_slice(c.ops[2], phi_control=True, limit=600):
+            if not (x.is_inst and x.op == "icmp"):
+                continue
+            for a, b in ((x.ops[0], x.ops[1]), (x.ops[1], x.ops[0])):
+                if not (b.is_const and b.is_int):
+                    continue
+                y = unext(a)
+                if y.is_inst and y.op == "load" and y.ty == "i8" and \
+                        any(z in chunk_ptrs for z in backward_slice(y.ops[0], phi_control=False)) and b.sval != 10:
+                    bad = (x, b.sval)
+        inst = "%s:copy@%d" % (g.name, c.line)
+        if bad is None:
+            chk.ok("K10-chunkcut", inst, c, "what is taken out of a chunk depends on the position of the line feed only")
+        else:
+            chk.violation("K10-chunkcut", inst, bad[0], "the number of bytes copied out of a chunk depends on a comparison of a chunk byte "
+                          "with %d (%r): a byte of the line is dropped when the source happens to cut its chunk there, the same "
+                          "listing is read differently depending on how the input is buffered" % (bad[1], chr(bad[1])))
+    if n == 0:
+        chk.broke("istream_get_line copies nothing out of the chunks it is handed")
+    return n
+
+
+def rule_type_twins(chk, prog):
+    """K12-twins (sibling agreement): SquashFS inode types come in pairs, basic k and extended k+7, that describe the same
+    kind of object.  A function that decides on the inode type and treats at least two pairs as pairs (both members named)
+    but names only one member of a third, forgets the other: the extended fifo falls into `default`, the entry is
+    silently left out of the listing."""
+    n = 0
+
+    def is_type(v):
+        v = strip_casts(v)
+        while v.is_inst and v.op in ("zext", "sext", "trunc"):
+            v = v.ops[0]
+        if v.is_inst and v.op == "load":
+            p = strip_casts(v.ops[0])
+            if p.is_inst and p.op == "getelementptr":
+                fs = p.fields()
+                return bool(fs) and fs[-1][1] == "type" and "sqfs_inode_t" in fs[-1][0]
+        return False
+    for f in prog.functions():
+        if f.decl:
+            continue
+        S = {}
+        for i in f.build().insts():
+            if i.op == "icmp" and i.pred in ("eq", "ne"):
+                for a, b in ((i.ops[0], i.ops[1]), (i.ops[1], i.ops[0])):
+                    if b.is_const and b.is_int and is_type(a):
+                        S.setdefault(b.sval, i)
+            elif i.op == "switch" and is_type(i.ops[0]):
+                for v, _s in i.x["cases"]:
+                    S.setdefault(v, i)
+        ks = [k for k in S if 1 <= k <= 14]
+        pairs = [k for k in ks if k <= 7 and k + 7 in S]
+        if len(pairs) < 2:
+            continue
+        n += 1
+        chk.analysed(f)
+        lone = sorted(k for k in ks if (k + 7 if k <= 7 else k - 7) not in S)
+        inst = "%s:inode-types" % f.name
+        if not lone:
+            chk.ok("K12-twins", inst, S[pairs[0]], "%d basic/extended pairs are handled, none of them half" % len(pairs))
+        else:
+            chk.violation("K12-twins", inst, S[lone[0]], "inode type %d is decided on without its %s twin %d although %d other pairs are "
+                          "handled as pairs: objects of the forgotten type take the default path (left out, or treated as "
+                          "something else)" % (lone[0], "extended" if lone[0] <= 7 else "basic",
+                                               lone[0] + 7 if lone[0] <= 7 else lone[0] - 7, len(pairs)))
+    return n
+
+
 def run(chk):
     chk.explanation = (
         "The full round trip (describe -> pack-file -> same tree) is value-level and not decided. Decided is the lexical "
@@ -895,6 +990,10 @@ def run(chk):
     rule_keywords(chk, pr, pg, L, Pr)
     rule_emissions(chk, pr, Pr, L)
     rule_token_integrity(chk, pr, Pr, L)
+    rule_type_twins(chk, pr)
+    chk.floor("K12-twins", 5)
+    rule_chunk_cut(chk, pg)
+    chk.floor("K10-chunkcut", 1)
     chk.floor("A2-token", 3)
     chk.floor("A2-class", 6)
     chk.floor("A2-keyword", 6)
